@@ -1973,6 +1973,73 @@ theorem caller_supplied_header_counterexample :
     restValue (callMetadata [(hdrName, ['a','=','1'])] (some ['k','=','v']) []) hdrName = some ['k','=','v'] := by
   decide
 
+/-! ### programs: the header of a call depends on that call's own request only -/
+
+/-- **The caller's metadata objects are never written**, whatever the program. -/
+theorem program_store_unchanged (extra : List (List Char × List Char)) :
+    ∀ (cs : List Call) (st : MdStore), (runProgram extra st cs).2 = st := by
+  intro cs
+  induction cs with
+  | nil => intro st; rfl
+  | cons c cs ih => intro st; simp only [runProgram, callStep, ih]
+
+/-- **No state between calls**: what the transport receives in the k-th call is computed from the
+k-th call alone — the object the caller passes (as the caller built it) and the header of that
+call's own request; earlier calls, and passing the same object again, have no influence. -/
+theorem program_wire_stateless (extra : List (List Char × List Char)) :
+    ∀ (cs : List Call) (st : MdStore),
+      (runProgram extra st cs).1 = cs.map fun c => callMetadata (st.read c.md) c.routing extra := by
+  intro cs
+  induction cs with
+  | nil => intro st; rfl
+  | cons c cs ih => intro st; simp only [runProgram, callStep, ih, List.map_cons]
+
+/-- **Every call of every program carries exactly the header of its own request**, once (or not at
+all when `create_metadata` computes none), on gRPC and on REST: for programs over any methods and
+requests, with caller objects and appended pairs that do not use the header name. -/
+theorem program_one_header_per_call (ct : ClassTables) (extra : List (List Char × List Char)) (st : MdStore)
+    (calls : List (Method × Request × Option Nat))
+    (hst : ∀ o ∈ st, ∀ kv ∈ o, kv.1 ≠ hdrName) (he : ∀ kv ∈ extra, kv.1 ≠ hdrName) :
+    ∀ w ∈ (calls.zip (runProgram extra st (calls.map fun c => ⟨header ct c.1 c.2.1, c.2.2⟩)).1),
+      grpcValues w.2 hdrName = (header ct w.1.1 w.1.2.1).toList ∧
+      restValue w.2 hdrName = header ct w.1.1 w.1.2.1 := by
+  rw [program_wire_stateless, List.map_map]
+  intro w hw
+  obtain ⟨c, wire⟩ := w
+  have hmem := List.of_mem_zip hw
+  have hw2 : wire = callMetadata (st.read c.2.2) (header ct c.1 c.2.1) extra := by
+    have := List.mem_iff_getElem.mp hw
+    obtain ⟨i, hi, hget⟩ := this
+    simp only [List.getElem_zip, List.getElem_map, Function.comp] at hget
+    have h1 := congrArg Prod.fst hget
+    have h2 := congrArg Prod.snd hget
+    simp only at h1 h2
+    rw [← h2, ← h1]
+  subst hw2
+  have hu : ∀ kv ∈ st.read c.2.2, kv.1 ≠ hdrName := by
+    cases hc : c.2.2 with
+    | none => intro kv hkv; simp [MdStore.read] at hkv
+    | some i =>
+      intro kv hkv
+      simp only [MdStore.read, List.getD_eq_getElem?_getD] at hkv
+      cases hg : st[i]? with
+      | none => simp [hg] at hkv
+      | some o =>
+        simp only [hg, Option.getD_some] at hkv
+        exact hst o (List.mem_of_getElem? hg) kv hkv
+  exact every_transport_carries_the_header ct c.1 c.2.1 _ extra hu he
+
+/-- hypotheses of `program_one_header_per_call`: two caller objects without the header name -/
+example : ∀ o ∈ ([[(['x','-','v','e','r','i','f'], ['1'])], []] : MdStore), ∀ kv ∈ o, kv.1 ≠ hdrName := by decide
+
+/-- a program that passes object 0 three times: the third call's wire carries ONE routing header,
+that of the third call, and object 0 is what it was -/
+example :
+    let st : MdStore := [[(['x'], ['1'])]]
+    let p := runProgram [] st [⟨some ['a','=','1'], some 0⟩, ⟨some ['a','=','2'], some 0⟩, ⟨some ['b','=','3'], some 0⟩]
+    p.1.map (fun w => grpcValues w hdrName) = [[['a','=','1']], [['a','=','2']], [['b','=','3']]] ∧ p.2 = st := by
+  decide
+
 /-! ### a template without named segment in the emitted chain -/
 
 /-- outside routing.proto ("exactly one named segment"), accepted by the generator: the emitted
